@@ -154,6 +154,11 @@ def add_header_to_file(
     if text.startswith("\ufeff"):
         bom, text = text[0], text[1:]
 
+    # Detect and remember line endings for later conversion.
+    line_ending = detect_line_endings(text)
+    # Normalise line endings.
+    text = text.replace(line_ending, "\n")
+
     # Ideally, this check is done elsewhere. But that would necessitate reading
     # the file contents before this function is called.
     if skip_existing and contains_reuse_info(text):
@@ -164,11 +169,6 @@ def add_header_to_file(
         )
         out.write("\n")
         return result
-
-    # Detect and remember line endings for later conversion.
-    line_ending = detect_line_endings(text)
-    # Normalise line endings.
-    text = text.replace(line_ending, "\n")
 
     try:
         if replace:
